@@ -676,7 +676,7 @@ Section FlexAlg.
   Definition is_compute_size (m : Engine.RunMode) : bool := match m with Engine.ComputeSize => true | _ => false end.
 
   (* steps 7 .. end, once the container's main size is known; `ws` in document order, `lens` the line lengths *)
-  Definition flex_after_main_size (s : FStyle T) (children : list (FStyle T)) (inp : FIn T) (k : Constants T)
+  Definition flex_after_main_size (s : FStyle T) (absl : list (nat * FStyle T)) (flags : list bool) (inp : FIn T) (k : Constants T)
              (available_space : Size (AvailableSpace T)) (lens : list nat) (outer_main inner_main : T) (ws : list WItem) : Alg :=
     let row := k_row k in
     let known_dimensions := qi_known inp in
@@ -714,18 +714,18 @@ Section FlexAlg.
                               (container_align_items s) in
       qsloop fst (fun x _ => abs_query_input ac (k_inner k) (snd x))
              (fun x _ o => abs_layout ac (snd x) (fst x) (out_size o) (out_content_size o)) (abs_step ac)
-             (abs_children children) size_ZERO (fun abs_content =>
+             absl size_ZERO (fun abs_content =>
       (* hidden layout *)
-      hidden_pass (hidden_flags children) 0
+      hidden_pass flags 0
         (Ret (out_of_sizes container_size (size_f32_max inflow abs_content) (first_vertical_baseline (fst fin)))))))).
 
-  Definition flex_preliminary (s : FStyle T) (children : list (FStyle T)) (inp : FIn T) : Alg :=
+  (* compute_preliminary, given the three things it derives from the child-style list: the items (generate_anonymous_flex_items), the
+     box-generating absolute children with their indices (the loop of the absolute pass), the display:none flags (the hidden loop) *)
+  Definition flex_core (s : FStyle T) (inp : FIn T) (k : Constants T) (items : list WItem) (absl : list (nat * FStyle T))
+             (flags : list bool) : Alg :=
     let known_dimensions := qi_known inp in
-    let k := flex_constants s known_dimensions (qi_parent inp) in
     let row := k_row k in
     let gutter := scrollbar_gutter s in
-    (* 1 *)
-    let items := flex_items k (container_align_items s) children in
     (* 2 *)
     let available_space := determine_available_space known_dimensions (qi_avail inp) k in
     (* 3 *)
@@ -737,12 +737,12 @@ Section FlexAlg.
     match s_main row (k_inner k) with
     | Some inner_main_size =>
         let outer_main_size := inner_main_size + main_axis_sum row (k_inset k) in
-        flex_after_main_size s children inp k available_space lens outer_main_size inner_main_size ws
+        flex_after_main_size s absl flags inp k available_space lens outer_main_size inner_main_size ws
     | None =>
         let main_content_box_inset := main_axis_sum row (k_inset k) in
         let continue_with (ws : list WItem) (outer_unclamped : T) : Alg :=
           let '(outer_main, inner_main) := finish_main_size k gutter outer_unclamped in
-          flex_after_main_size s children inp (with_main_size s k outer_main inner_main) available_space lens outer_main inner_main ws in
+          flex_after_main_size s absl flags inp (with_main_size s k outer_main inner_main) available_space lens outer_main inner_main ws in
         match main_branch k available_space with
         | MB_Definite a =>
             let lines := regroup lens ws in
@@ -755,6 +755,11 @@ Section FlexAlg.
             continue_with ws (intrinsic_main_size k (regroup lens ws) + main_content_box_inset))
         end
     end).
+
+  Definition flex_preliminary (s : FStyle T) (children : list (FStyle T)) (inp : FIn T) : Alg :=
+    let k := flex_constants s (qi_known inp) (qi_parent inp) in
+    (* 1 *)
+    flex_core s inp k (flex_items k (container_align_items s) children) (abs_children children) (hidden_flags children).
 
   (* compute_flexbox_layout (l.164-223) *)
   Definition flex_alg (s : FStyle T) (children : list (FStyle T)) (inp : FIn T) : Alg :=
